@@ -408,6 +408,14 @@ def check_ctor_misc(res):
         ('mask_shape_mismatch_1d', lambda: RegionMask(np.ones(6), RegionBoundingBox(0, 3, 0, 2)), True),
         ('mask_ok', lambda: RegionMask(np.ones((3, 2)), RegionBoundingBox(0, 2, 0, 3)), False),
         ('bbox_float', lambda: RegionBoundingBox(0.5, 2, 0, 3), True),
+        ('bbox_integral_float', lambda: RegionBoundingBox(0, 2.0, 0, 3), True),
+        ('bbox_0d_int_array', lambda: RegionBoundingBox(np.array(1), 2, 0, 3), True),
+        ('bbox_0d_int_array_last', lambda: RegionBoundingBox(0, 2, 0, np.array(3, dtype=np.uint8)), True),
+        ('bbox_1d_array', lambda: RegionBoundingBox(0, 2, np.array([0]), 3), True),
+        ('bbox_str', lambda: RegionBoundingBox(0, '2', 0, 3), True),
+        ('bbox_none', lambda: RegionBoundingBox(0, 2, None, 3), True),
+        ('bbox_quantity', lambda: RegionBoundingBox(0, 2, 0, 3 * _u().pix), True),
+        ('bbox_np_int8_ok', lambda: RegionBoundingBox(np.int8(0), np.int16(2), np.uint8(0), np.longlong(3)), False),
         ('bbox_inverted', lambda: RegionBoundingBox(3, 2, 0, 3), True),
         ('circle_annulus_equal', lambda: regions.CircleAnnulusPixelRegion(V('pix12'), 2.5, 2.5), True),
         ('circle_annulus_inverted', lambda: regions.CircleAnnulusPixelRegion(V('pix12'), 3.0, 2.5), True),
